@@ -339,11 +339,14 @@ def mutate_tokens(rng, text):
     return " ".join(parts)
 
 
-def run_cases(docs, flats, cases, wd, kind="native", mode="eval", tag="c02", flavour="hooks"):
+def run_cases(docs, flats, cases, wd, kind="native", mode="eval", tag="c02", flavour="hooks", contiguous=False):
     """returns list of events (cases joined with harness results)"""
     exe = vlib.build_harness("xp", flavour)
     nsh = vlib.NCPU
     chunks = [cases[i::nsh] for i in range(nsh)]
+    if contiguous:          # neighbours stay neighbours in one process: what one evaluation releases, the next one recycles
+        sz = 2 * ((len(cases) + 2 * nsh - 1) // (2 * nsh))
+        chunks = [cases[i * sz:(i + 1) * sz] for i in range(nsh)]
     head = {"docs": [doc_xml(t) for t in docs], "kind": kind}
     procs = []
     for s, ch in enumerate(chunks):
